@@ -536,14 +536,19 @@ pub fn index_tap(planted: &[Planted], tap: &[TapEvent]) -> Vec<Dgram> {
 
 /// Execute one run of the mrp world
 pub fn drive(seed: u64, cfg: MrpCfg) -> MrpRun {
+    let (net_cfg, planted) = (cfg.net.clone(), cfg.planted.clone());
+    drive_with(seed, cfg, move |fired| Box::new(Adversary::new(net_cfg, planted, fired)))
+}
+
+/// Execute one run of the mrp world under the given network adversary
+pub fn drive_with(
+    seed: u64,
+    cfg: MrpCfg,
+    policy: impl FnOnce(Rc<RefCell<BTreeMap<&'static str, u64>>>) -> Box<dyn Policy>,
+) -> MrpRun {
     let n_nodes = cfg.workloads.len();
     let fired = Rc::new(RefCell::new(BTreeMap::new()));
-    let net = Net::new(Box::new(Adversary {
-        cfg: cfg.net.clone(),
-        planted: cfg.planted.clone(),
-        seen: BTreeMap::new(),
-        fired: fired.clone(),
-    }));
+    let net = Net::new(policy(fired.clone()));
     let log: AppLog = Rc::new(RefCell::new(Vec::new()));
     let events: Rc<RefCell<Vec<XEvent>>> = Rc::new(RefCell::new(Vec::new()));
     let incs: Rc<RefCell<Vec<u32>>> = Rc::new(RefCell::new(vec![0; n_nodes]));
